@@ -33,7 +33,7 @@ func init() {
 		Assumptions: []string{"engine-level read results (Transaction.Find) are documented to return the stored documents and are not judged", "strings are immutable and ignored by the alias walker"},
 		Batches:     func(tier string) int { return 8 },
 		Require: func(tier string) map[string]int64 {
-			return map[string]int64{"calls": 1200, "alias_checks": 1200, "regions_caller": 5000, "regions_engine": 50000, "scribbled_values": 2000, "results_with_containers": 300, "id_results_checked": 200, "concurrent_scribbles": 300}
+			return map[string]int64{"calls": 1200, "alias_checks": 1200, "read_only_calls_checked": 100, "regions_caller": 5000, "regions_engine": 50000, "scribbled_values": 2000, "results_with_containers": 300, "id_results_checked": 200, "concurrent_scribbles": 300}
 		},
 		Run: runC17,
 	})
@@ -140,7 +140,15 @@ type c17Case struct {
 	results []interface{}
 	// engineLevel marks calls made on lungo.Transaction directly
 	engineLevel bool
+	// state before the call: exact dump, a full read and a cursor opened (but
+	// not consumed) before the call
+	pre     mon.CatDump
+	preRead string
+	early   lungo.ICursor
 }
+
+// c17ReadOnly lists the calls that must leave the database bit-identical.
+var c17ReadOnly = map[string]bool{"Find": true, "FindOne": true, "Distinct": true, "ListCollections": true, "CountDocuments": true}
 
 func (k *c17Case) witness(extra map[string]interface{}) interface{} {
 	m := map[string]interface{}{"call": k.name, "arguments": k.argDesc}
@@ -158,6 +166,22 @@ func (k *c17Case) judge(before [][]byte) {
 	for i, a := range k.args {
 		if !bytes.Equal(before[i], marshalAny(a)) {
 			c.Violate("alias:argument-modified", fmt.Sprintf("%s modified its argument %d", k.name, i), k.witness(map[string]interface{}{"argument_after": fmt.Sprintf("%v", a)}))
+			return
+		}
+	}
+	// (e) a read hands out values without touching what it read: the exact
+	// dump is unchanged and a cursor opened before the call still yields the
+	// documents as they were
+	if c17ReadOnly[k.name] && k.early != nil {
+		c.Count("read_only_calls_checked", 1)
+		if d := k.pre.Diff(exactDump(k.engine.Catalog())); d != "" {
+			c.Violate("alias:read-changed-state:"+k.name, fmt.Sprintf("the read-only call %s changed the stored documents: %s", k.name, d), k.witness(nil))
+			return
+		}
+		var docs []bson.D
+		k.early.All(k.ctx, &docs)
+		if got := strings.Join(jsonList(docs), "\n"); got != k.preRead {
+			c.Violate("alias:read-changed-result:"+k.name, fmt.Sprintf("the read-only call %s changed the result of a cursor that was opened before it", k.name), k.witness(map[string]interface{}{"before": k.preRead, "after": got}))
 			return
 		}
 	}
@@ -331,7 +355,34 @@ func c17Call(k *c17Case, idx int) {
 			k.argDesc += s + " "
 
 		}
+		if c17ReadOnly[name] {
+			k.pre = exactDump(k.engine.Catalog())
+			k.preRead = dumpColl(ctx, coll)
+			k.early, _ = coll.Find(ctx, bson.D{})
+		}
 		return before
+	}
+	// projections: plain, operator overlays, and overlays on a path inside an
+	// included parent (the overlay is computed from the stored sub-document)
+	projShapes := func() interface{} {
+		switch r.Intn(8) {
+		case 0:
+			return bson.D{{Key: "arr", Value: bson.D{{Key: "$slice", Value: int32(2)}}}}
+		case 1:
+			return bson.D{{Key: "sub", Value: int32(1)}, {Key: "sub.deep.list", Value: bson.D{{Key: "$slice", Value: int32(1)}}}}
+		case 2:
+			return bson.M{"sub.deep": true, "sub.deep.list": bson.M{"$slice": bson.A{int32(1), int32(1)}}}
+		case 3:
+			return bson.D{{Key: "sub.deep.list", Value: bson.D{{Key: "$elemMatch", Value: bson.D{{Key: "$gte", Value: int32(8)}}}}}, {Key: "sub", Value: int32(1)}}
+		case 4:
+			return bson.D{{Key: "arr", Value: bson.D{{Key: "$elemMatch", Value: bson.D{{Key: "x", Value: "p"}}}}}, {Key: "g", Value: int32(1)}}
+		case 5:
+			return bson.D{{Key: "sub", Value: int32(0)}, {Key: "bin", Value: false}}
+		case 6:
+			return bson.D{{Key: "sub", Value: int32(1)}, {Key: "sub.deep.list", Value: bson.D{{Key: "$slice", Value: int32(0)}}}, {Key: "arr", Value: int32(1)}, {Key: "arr.x", Value: bson.D{{Key: "$slice", Value: int32(-1)}}}}
+		default:
+			return bson.D{{Key: "meta", Value: int32(1)}, {Key: "meta.m", Value: bson.D{{Key: "$slice", Value: int32(1)}}}, {Key: "tags", Value: bson.D{{Key: "$slice", Value: int32(-1)}}}}
+		}
 	}
 	var before [][]byte
 	switch which {
@@ -352,10 +403,10 @@ func c17Call(k *c17Case, idx int) {
 		}
 	case 2:
 		f := filterShapes()
-		proj := bson.D{{Key: "arr", Value: bson.D{{Key: "$slice", Value: int32(2)}}}}
+		proj := projShapes()
 		before = set("Find", f, proj)
 		o := options.Find().SetSort(bson.D{{Key: "a", Value: int32(1)}})
-		if r.Bool() {
+		if r.Chance(3, 4) {
 			o.SetProjection(proj)
 		}
 		cur, err := coll.Find(ctx, f, o)
@@ -378,8 +429,9 @@ func c17Call(k *c17Case, idx int) {
 		}
 	case 3:
 		f := filterShapes()
-		before = set("FindOne", f)
-		decodeShapes(coll.FindOne(ctx, f, options.FindOne().SetSort(bson.M{"a": int32(-1)})))
+		proj := projShapes()
+		before = set("FindOne", f, proj)
+		decodeShapes(coll.FindOne(ctx, f, options.FindOne().SetSort(bson.M{"a": int32(-1)}).SetProjection(proj)))
 	case 4:
 		f := filterShapes()
 		before = set("Distinct", f)
@@ -456,8 +508,9 @@ func c17Call(k *c17Case, idx int) {
 		}
 	case 12:
 		f, u := filterShapes(), update()
-		before = set("FindOneAndUpdate", f, u)
-		o := options.FindOneAndUpdate()
+		proj := projShapes()
+		before = set("FindOneAndUpdate", f, u, proj)
+		o := options.FindOneAndUpdate().SetProjection(proj)
 		if r.Bool() {
 			o.SetReturnDocument(options.After)
 		}
@@ -465,16 +518,18 @@ func c17Call(k *c17Case, idx int) {
 	case 13:
 		f := filterShapes()
 		repl := bson.D{{Key: "r", Value: bson.A{bson.D{{Key: "x", Value: primitive.Binary{Data: []byte{1, 2}}}}}}, {Key: "g", Value: "grp"}}
-		before = set("FindOneAndReplace", f, repl)
-		o := options.FindOneAndReplace()
+		proj := projShapes()
+		before = set("FindOneAndReplace", f, repl, proj)
+		o := options.FindOneAndReplace().SetProjection(proj)
 		if r.Bool() {
 			o.SetReturnDocument(options.After)
 		}
 		decodeShapes(coll.FindOneAndReplace(ctx, f, repl, o))
 	case 14:
 		f := filterShapes()
-		before = set("FindOneAndDelete", f)
-		decodeShapes(coll.FindOneAndDelete(ctx, f))
+		proj := projShapes()
+		before = set("FindOneAndDelete", f, proj)
+		decodeShapes(coll.FindOneAndDelete(ctx, f, options.FindOneAndDelete().SetProjection(proj)))
 	case 15:
 		ins := c17Doc(r, 9000+idx, r.Intn(4))
 		uid := c17ID(r, 9500+idx)
